@@ -1,6 +1,7 @@
 package main
 
 import (
+	"flag"
 	"math/big"
 
 	"verifharness/hlib"
@@ -428,9 +429,72 @@ func fixDCs(in *In) {
 	fix(in.Steps)
 }
 
+// aggchain-prover flow stream: boundary schedules and walks (no restarts / seeded tables: the stored proof is then always there)
+func fepCases(r *hlib.Rng, nWalks int) []In {
+	var out []In
+	one := func(s Step) []Step { return []Step{s} }
+	tk := func(epochTick bool, max uint, rule int) Step {
+		s := status(max)
+		if epochTick {
+			s = epoch(max)
+		}
+		s.Rule = rule
+		return s
+	}
+	for _, retry := range []bool{true, false} {
+		add := func(tag string, steps ...[]Step) {
+			in := In{Flow: "fep", Retry: retry, AggPrev: true, Tag: tag}
+			for _, ss := range steps {
+				in.Steps = append(in.Steps, ss...)
+			}
+			out = append(out, in)
+		}
+		h := &hist{r: r}
+		// empty certificates are allowed; the prover shortens, refuses, answers outside the range
+		add("fep-prover", one(h.block(0, 0, 0)), one(tk(true, 0, 0)), settleLast(), one(h.block(0, 1, 0)), one(h.block(0, 0, 1)),
+			one(h.block(0, 2, 0)), one(tk(true, 0, 5)), one(tk(true, 0, 3)), one(tk(true, 0, 4)), one(tk(true, 0, 2)), settleLast(),
+			one(tk(true, 0, 1)), settleLast(), one(tk(true, 0, 0)), settleLast(), one(tk(true, 0, 0)))
+		// a certificate in error is resent with the SAME range (stored proof), whatever arrived meanwhile and whatever the prover would say
+		h = &hist{r: r}
+		add("fep-resend", one(h.block(0, 1, 1)), one(h.block(0, 1, 0)), one(tk(true, 0, 2)), one(moveLast(stInError)), one(h.block(0, 1, 0)),
+			one(tk(false, 0, 5)), one(tk(true, 0, 3)), one(moveLast(stInError)), one(tk(true, 1, 0)), settleLast(), one(tk(true, 200, 0)),
+			settleLast(), one(tk(true, 0, 0)), settleLast(), one(tk(false, 0, 0)))
+	}
+	for i := 0; i < nWalks; i++ {
+		in := walk(r, 20+r.Intn(41))
+		in.Flow, in.Tag, in.Seeds, in.AggPrev = "fep", "fep-walk", nil, true
+		var steps []Step
+		for _, s := range in.Steps {
+			if s.K == "restart" {
+				continue
+			}
+			s.Crash = false
+			if s.K == "epoch" || s.K == "status" {
+				s.Rule = hlib.Pick(r, 0, 0, 0, 0, 1, 1, 2, 3, 4, 5)
+			}
+			steps = append(steps, s)
+		}
+		in.Steps = steps
+		out = append(out, in)
+	}
+	return out
+}
+
+var flowFlag = flag.String("flow", "mixed", "pp | fep | mixed: which flow streams to generate")
+
 func generate(f *hlib.Flags) []In {
 	r := hlib.NewRng(f.Seed)
+	if *flowFlag == "fep" {
+		ins := fepCases(r, f.N)
+		for i := range ins {
+			fixDCs(&ins[i])
+		}
+		return ins
+	}
 	ins := scenarios(r)
+	if *flowFlag == "mixed" {
+		ins = append(ins, fepCases(hlib.NewRng(f.Seed+7777), f.N/4)...)
+	}
 	if f.Tier != "quick" {
 		ins = append(ins, exhaustive(r, 6, false, true)...)
 		ins = append(ins, exhaustive(r, 6, false, false)...)
